@@ -28,6 +28,12 @@ const FILTERS: &[(&str, &str)] = &[
     ("(|(cn=a*b*c)(sn>=x)(sn<=y)(sn~=z))", "(C 2 1 (C 2 4 (P 0 4 636e) (C 0 16 (P 2 0 61) (P 2 1 62) (P 2 2 63))) (C 2 5 (P 0 4 736e) (P 0 4 78)) (C 2 6 (P 0 4 736e) (P 0 4 79)) (C 2 8 (P 0 4 736e) (P 0 4 7a)))"),
     ("(cn=\\2a\\00\\ff)", "(C 2 3 (P 0 4 636e) (P 0 4 2a00ff))"),
     ("(uid=*x)", "(C 2 4 (P 0 4 756964) (C 0 16 (P 2 2 78)))"),
+    // extensibleMatch [9] MatchingRuleAssertion { matchingRule [1], type [2], matchValue [3], dnAttributes [4] DEFAULT FALSE }
+    ("(cn:=x)", "(C 2 9 (P 2 2 636e) (P 2 3 78))"),
+    ("(cn:dn:2.5.13.5:=x)", "(C 2 9 (P 2 1 322e352e31332e35) (P 2 2 636e) (P 2 3 78) (P 2 4 ff))"),
+    ("(:caseExactMatch:=Foo)", "(C 2 9 (P 2 1 6361736545786163744d61746368) (P 2 3 466f6f))"),
+    ("(:dn:2.5.13.5:=Foo)", "(C 2 9 (P 2 1 322e352e31332e35) (P 2 3 466f6f) (P 2 4 ff))"),
+    ("(&(sn:caseIgnoreMatch:=a\\28)(!(:1.2.3:=\\00)))", "(C 2 0 (C 2 9 (P 2 1 6361736549676e6f72654d61746368) (P 2 2 736e) (P 2 3 6128)) (C 2 2 (C 2 9 (P 2 1 312e322e33) (P 2 3 00))))"),
 ];
 
 const BAD_FILTERS: &[&str] = &["(", "(cn=a", "", "(cn)", "(&(a=b)", "(a=b))"];
@@ -1102,6 +1108,13 @@ pub fn run(thorough: bool, mut rng: Rng, mut out: Out) {
     ];
     for c in &corpus {
         script_case(&mut out, &rt, c, "corpus");
+    }
+    // every entry of the hand-written filter table (string -> RFC 4511 Filter element) goes out in a Search once,
+    // through both search() and streaming_search(): the filter on the wire is the one ASKED FOR, judged against the
+    // table — not against whatever the library's own parser produced
+    for i in 0..FILTERS.len() {
+        script_case(&mut out, &rt, &[Call::Op(0, f(i), i % 2 == 0)], "corpus-filter");
+        script_case(&mut out, &rt, &[Call::Op(0, f(i), i % 2 == 1)], "corpus-filter");
     }
     // part A: single requests of every kind
     let n_single = if thorough { 100_000 } else { 5_000 };
